@@ -17,8 +17,14 @@ package core
 //@   ensures time_order: isType(a, "time.Time") && isType(b, "time.Time") ==> result == sign(unboxInt(a) - unboxInt(b))
 //@   ensures range: result == -1 || result == 0 || result == 1
 
+// C09: the value ORDER BY compares for a field name is the row's value at the position of the FIRST field of that
+// name in the row's field list (positions counted from the front of the list, the way the values are laid out).
 //@ func (*FlatRow).Get
 //@   pureheap
+//@   ensures value_at_the_fields_position: forall k in 0..len(row.fields) :: k < len(row.Values) && row.fields[k].Name == param && (forall q in 0..k :: row.fields[q].Name != param) ==> isType(result, "float64") && unboxReal(result) == row.Values[k]
+//@   loop 0 modifies nothing
+//@   loop 0 invariant bounds: 0 <= $i && $i <= len(row.fields)
+//@   loop 0 invariant none_yet: forall q in 0..$i :: row.fields[q].Name != param
 
 //@ define cmpKey(ob, a, b) = ob.Field == "_time" ? sign(ob.Descending ? b.TS - a.TS : a.TS - b.TS) : sign(ob.Descending ? compare(b.Get(ob.Field), a.Get(ob.Field)) : compare(a.Get(ob.Field), b.Get(ob.Field)))
 
@@ -165,3 +171,10 @@ package core
 //@ func Sort
 //@   modifies nothing
 //@   ensures keeps_key_list: result != nil && isType(result, "*core.sorter")
+
+// C08 (an outer query over a sub-query reads the sub-query's rows through unflatten): the values handed on for one flat
+// row are built in a slice allocated for that row, so a consumer that keeps rows (group, sort, the cluster merge) never
+// sees them overwritten by the rows that follow; the key is the flat row's own key.
+//@ func (*unflatten).Iterate$2
+//@   modifies *
+//@   at call dyn:onRow assert values_private_to_the_row: fresh(callarg1) && callarg0 == row.Key
